@@ -243,7 +243,7 @@ func (e Ev) coq(ids map[uint64]Ident) string {
 		fr := "(mk_frames 0%N 0%Z [48]%N (Finite [48]%N))"
 		return lib.App("Register", lib.App("mk_member", lib.N(e.ID), cBytes(w.Topic), cScopes(w.ScopesNil, w.Scopes), lib.Bool(w.CanRead), lib.Bool(w.CanWrite),
 			"[]", cBytes(w.ExpiresAt), cBytes(w.UserAgent), cBytes(w.Addr), lib.Bool(e.Internal), fr, fr))
-	case "leave", "abort":
+	case "leave", "abort", "bye":
 		return lib.App("Unregister", lib.N(e.ID), cBytes(ids[e.ID].Topic))
 	case "traffic":
 		sz, _ := floatLex(float64(e.Size))
